@@ -205,6 +205,9 @@ func runModelProp(prop, tier, replay string) {
 		if prop == "C04" {
 			partSplittings(ctx, r, s, stack, base.Fork("splits/"+stack))
 		}
+		if prop == "C01" && only < 0 {
+			staleUploadScripts(ctx, r, s, stack, base.Fork("stale-upload-scripts/"+stack), cfg)
+		}
 		if prop == "C11" && only < 0 {
 			metaReuseScripts(ctx, r, s, stack, base.Fork("meta-scripts/"+stack), cfg)
 		}
